@@ -160,16 +160,21 @@ func init() {
 				cases = append(cases, Case{ID: fmt.Sprintf("structure #%d %s", i, strings.ReplaceAll(p.text, "\n", " ")), Pkg: "internal/parser", Fn: "ZZC15Structure", Args: []string{p.text, p.sx}, Tag: "tree-structure (native parser, by-product)"})
 				vs := layoutVariants(p.text)
 				if tier != "thorough" {
-					vs = []string{vs[5], vs[6], vs[(i%5)]}
+					vs = []string{vs[5], vs[6], vs[(i%5)], vs[7]}
 				}
 				for j, v := range vs {
 					cases = append(cases, Case{ID: fmt.Sprintf("layout #%d.%d", i, j), Pkg: "internal/parser", Fn: "ZZC15Layout", Args: []string{p.text, v}, Tag: "layout-invariance (native parser, by-product)"})
 				}
 			}
+			// known finding: a block comment directly after an asset / number / ratio token
+			for j, v := range []string{"send [EUR/*c*/10] (\n source = @a\n destination = @b\n)", "send [EUR 10/*c*/] (\n source = @a\n destination = @b\n)", "send [EUR 10] (\n source = @a\n destination = { 1/2/*c*/to @b remaining kept }\n)"} {
+				plain := strings.ReplaceAll(v, "/*c*/", " ")
+				cases = append(cases, Case{ID: fmt.Sprintf("layout comment-glued-to-token #%d", j), Pkg: "internal/parser", Fn: "ZZC15Layout", Args: []string{plain, v}, Tag: "layout-invariance (native parser, by-product)"})
+			}
 			return cases
 		},
 		Bounds: stdBounds(
-			map[string]interface{}{"structure_and_layout": "BY-PRODUCT, not a solver verdict over texts: 24 generated scripts covering every grammar alternative (with the expected tree built alongside the text) parsed by the real parser; tree rendering, every node's range (text under the range, containment, sibling order) and 3 (thorough 7) whitespace/comment layouts each", "token_text": "<= 3 characters / 6 bytes, every UTF-8 layout, symbolic bytes", "positions": "any line >= 1, column >= 0 (up to 2^40)", "constructs": "first and last token of <= 2 characters each, same line or later line"},
+			map[string]interface{}{"structure_and_layout": "BY-PRODUCT, not a solver verdict over texts: 24 generated scripts covering every grammar alternative (with the expected tree built alongside the text) parsed by the real parser; tree rendering, every node's range (text under the range, containment, sibling order) and 4 (thorough 8) whitespace/comment layouts each", "token_text": "<= 3 characters / 6 bytes, every UTF-8 layout, symbolic bytes", "positions": "any line >= 1, column >= 0 (up to 2^40)", "constructs": "first and last token of <= 2 characters each, same line or later line"},
 			map[string]interface{}{"token_text": "<= 4 characters / 10 bytes", "constructs": "tokens of <= 3 characters"}),
 		Assumptions: []string{
 			"SCOPED CLAIM: only the range arithmetic (tokenToRange, ctxToRange, Position.GtEq, Range.Contains) is decided; tree structure, literal values, associativity, layout and comment invariance depend on the ANTLR parse and are outside",
